@@ -1,6 +1,7 @@
 import StepModel.LazyLemmas
 import StepModel.LazyScan
 import StepModel.LazyScanFile
+import StepModel.LazyScanGaps
 /-!
 # C10 — the lazy loader sees the same file as the eager reader
 
@@ -101,6 +102,68 @@ theorem C10_scan_file (is : List RInst) (hok : ∀ i ∈ is, i.Ok) (ws ws' rest 
   have hse := sectionEnd_endsec ws ws' rest hws hws' (4 * (renderAll is (endsec ws ws' rest)).length + 15)
   rw [scanLoop_ok _ _ htail is hok hfu _ (by omega) [], hse]
   simp
+
+/-- **The scanner on a whole data section, with comments wherever the repaired scanner accepts them** (regenerated flags
+    `tokenComments`, `kwSpaceDelim`): every instance is written
+    ws [comment ws] `#` ws digits GAP `=` GAP KEYWORD PRE `(` tokens `)` GAP `;` where GAP = white space and any number of comments
+    (bodies without `*`, `/`, `'`, so with `#`, `(`, `)`, `;`, `=`), PRE = white space (tabs and newlines included) and comments;
+    the section ends with GAP `ENDSEC` ws `;`.  `scan` returns exactly the written ids, keywords and references in file order and
+    accepts the section.  Only before `#` the code accepts at most one comment (a second one ends the scan: not generated, see notes). -/
+theorem C10_scan_file_gaps (is : List RInstC) (hok : ∀ i ∈ is, i.Ok) (g : Gap) (hg : gapOk g = true) (ws ws' rest : Bytes)
+    (hws : ws.all isSpace = true) (hws' : ws'.all isSpace = true) :
+    scan (renderAllC is (endsecG g ws ws' rest)) = .ok (is.map RInstC.entry, true) := by
+  unfold scan
+  have hfold : ∀ (l : List RInstC) (tail : Bytes),
+      (l.map (fun i => ((fun r => i.render r), i.entry))).foldr (fun p r => p.1 r) tail = renderAllC l tail := by
+    intro l tail
+    induction l with
+    | nil => rfl
+    | cons i t ih => simp only [List.map_cons, List.foldr_cons, ih]; rfl
+  have hL := renderAllC_length is (endsecG g ws ws' rest)
+  have h1 : ∀ i ∈ is, 1 ≤ (i.render []).length := by
+    intro i _
+    unfold RInstC.render
+    cases i.lead with
+    | none => simp [leadRender]; omega
+    | some p => simp [leadRender]; omega
+  have hn := length_le_sum is (fun i => (i.render []).length) h1
+  have htail := nextInstance_endsecG g hg ws ws' rest hws (4 * (renderAllC is (endsecG g ws ws' rest)).length + 16) (by omega)
+  have hse := sectionEnd_endsecG g hg ws ws' rest hws hws' (4 * (renderAllC is (endsecG g ws ws' rest)).length + 16) (by omega)
+  have := scanLoop_pieces (4 * (renderAllC is (endsecG g ws ws' rest)).length + 16) (endsecG g ws ws' rest) htail
+    (is.map (fun i => ((fun r => i.render r), i.entry)))
+    (by
+      intro p hp rest' hlen
+      rw [List.mem_map] at hp
+      obtain ⟨i, hi, rfl⟩ := hp
+      exact nextInstance_gap i (hok i hi) rest' _ hlen)
+    (by
+      intro p hp rest'
+      rw [List.mem_map] at hp
+      obtain ⟨i, hi, rfl⟩ := hp
+      have := renderC_length i rest'
+      simp only; omega)
+    (by rw [hfold]; omega)
+    ((renderAllC is (endsecG g ws ws' rest)).length + 1) (by simp; omega) []
+  rw [hfold] at this
+  rw [this, hse]
+  simp [List.map_map, Function.comp_def]
+
+/-- non-vacuity: `/*l #9*/ #12 /*c (*/ = /*e ;*/ ND` tab `/*k*/ ('a',#3) /*s )*/ ;` is a well-formed written instance -/
+example :
+    let i : RInstC := ⟨[' '], some (['l', ' ', '#', '9'], [' ']), [], ['1', '2'], [([' '], ['c', ' ', '('])], [' '],
+      [([' '], ['e', ' ', ';'])], [' '], ['N', 'D'], [.other '\t', .cmt ['k']],
+      [.str [.plain 'a'], .other ',', .ref ['3']], [([' '], ['s', ' ', ')'])], [' ']⟩
+    i.Ok ∧ i.entry = ⟨12, ['N', 'D'], [3]⟩ := by
+  refine ⟨?_, by decide⟩
+  constructor <;> decide
+
+/-- the reading of `\S\` the scanner shares with the eager reader (`GetLiteralStr`): an apostrophe directly after `\S\` does
+    not close the string.  `'a\S\',$)` is therefore an unterminated literal (the directive lacks its character; not a conforming
+    string), and `'a\S\''` ends after the second apostrophe - this is why `strOkAux` excludes these two spellings -/
+theorem C10_string_sbs_witness :
+    strRest ['\'', 'a', '\\', 'S', '\\', '\'', ',', '$', ')'] = [] ∧
+    strRest ['\'', 'a', '\\', 'S', '\\', '\'', '\'', ',', '$'] = [',', '$'] := by
+  decide
 
 /-- **index = what the file denotes**: ids and keywords (and mentions) of the lazy index are those written in the file -/
 theorem C10_index (is : List RInst) (hok : ∀ i ∈ is, i.Ok) (ws ws' rest : Bytes)
